@@ -37,11 +37,12 @@ const (
 	KMixed
 	KLimits // data built to reach the extreme tokens of the run / match coders (see expandInto)
 	KRecords // fixed-width text records (CR LF or LF line ends) whose width often divides the block size
+	KLatin1  // 8-bit text: words whose letters are often accented Latin-1 bytes (>= 0xC0), so that escapes abound
 	NKinds
 )
 
 var KindNames = []string{"random", "text", "xml", "utf8", "dna", "exe-x86", "exe-arm", "wav", "bmp", "runs",
-	"skewed", "smallalpha", "repeat", "numeric", "base64", "same", "magic", "zeros", "ramp", "mixed", "limits", "records"}
+	"skewed", "smallalpha", "repeat", "numeric", "base64", "same", "magic", "zeros", "ramp", "mixed", "limits", "records", "latin1"}
 
 // Recipe describes a byte string; Expand builds it.
 type Recipe struct {
@@ -329,6 +330,42 @@ func expandInto(b []byte, kind int, seed uint64, p1, p2 int) {
 			}
 			pos += copy(b[pos:], line)
 		}
+	case KLatin1:
+		// p1 sets the share of accented letters (0..100 %), p2 the share of words unknown to any dictionary
+		hi := p1 % 101
+		unk := p2 % 101
+		var sb bytes.Buffer
+		for sb.Len() < n {
+			w := []byte(words[r.intn(len(words))])
+			if r.intn(100) < unk {
+				w = make([]byte, 2+r.intn(9))
+				for i := range w {
+					w[i] = byte('a' + r.intn(26))
+				}
+			}
+			for i := range w {
+				if r.intn(100) < hi {
+					w[i] = byte(0xC0 + r.intn(0x3F)) // Latin-1 letters
+				}
+			}
+			if r.intn(10) == 0 && w[0] >= 'a' && w[0] <= 'z' {
+				w[0] -= 32
+			}
+			sb.Write(w)
+			switch r.intn(12) {
+			case 0:
+				sb.WriteString(". ")
+			case 1:
+				sb.WriteString(",\n")
+			default:
+				sb.WriteByte(' ')
+			}
+		}
+		copy(b, sb.Bytes())
+		// the tail is where the coders run out of room: end on a stretch of 0..9 accented letters
+		for i, k := 0, int(seed%10); i < k && i < n; i++ {
+			b[n-1-i] = byte(0xC0 + r.intn(0x3F))
+		}
 	case KDNA:
 		al := "ACGT"
 		for i := range b {
@@ -531,7 +568,7 @@ func DrawRecipe(t *rapid.T, maxLen int, label string) Recipe {
 // edgesFor lists the edge decorations that the detectors for this kind of data look at.
 func edgesFor(kind int) []int {
 	switch kind {
-	case KText, KXML, KRecords:
+	case KText, KXML, KRecords, KLatin1:
 		return []int{1, 2, 3, 12}
 	case KUTF8:
 		return []int{7, 8, 12, 15, 16, 17}
